@@ -289,6 +289,7 @@ Definition step (s : st) (l : label) : st * list out :=
   | LDupClaim =>
       (* claim_mpp_part, UpdateFulfillCommitFetch::DuplicateClaim: the completion action waits for the updates
          in flight, or runs at once when there are none *)
+      if negb (is_ready c) then err s else
       match rev (inflight (mg s)) with
       | [] => (s, [ORel RAction (latest c)])
       | i :: _ => (on_mg (fun m => m_acts (acts m ++ [i]) m) s, [])
@@ -394,13 +395,14 @@ Fixpoint run_outs (s : st) (ls : list label) : list (list out) :=
   match ls with [] => [] | l :: t => let '(s', o) := step s l in o :: run_outs s' t end.
 
 (** Initial states.
-    [init_open b isdef]: a ready channel whose monitor is at update id [b], nothing pending.
+    [init_open b isdef]: a ready channel whose monitor is at update id [b], nothing pending (the monitor itself
+    is the first entry of the ghost log [handed], already durable).
     [init_new b initial_pending is_funder]: right after watch_channel of a new channel. *)
 Definition init_open (b : Z) (isdef : bool) : st :=
   mkSt (mkChan b false false false true true [] false false false [] false [])
        (mkMgr [] [])
        (mkCmon isdef [] b [] [])
-       (mkGhost b [] [] b b false false false true).
+       (mkGhost b [mkUpd b []] [b] b b false false false true).
 
 Definition init_new (b : Z) (initial_pending is_funder : bool) : st :=
   mkSt (mkChan b initial_pending false false false false [] false false false [] false [])
